@@ -3,7 +3,7 @@
 From Coq Require Import List String Bool.
 From Helm Require Import Common.Assoc Engine.Types Engine.Eff Engine.Ops Engine.Cluster Engine.Seq.
 From Helm Require Import Engine.MatchDefs Engine.MatchUpdate Engine.MatchExamples Engine.MatchRun Engine.MatchOps Engine.MatchSuccess.
-From Helm Require Import Engine.Obj2 Engine.Update2 Engine.Merge3Proofs Engine.MergeJsonProofs Engine.Update2Proofs Engine.Update2Spec Engine.MergeExamples.
+From Helm Require Import Engine.Obj2 Engine.Update2 Engine.Merge3Proofs Engine.MergeJsonProofs Engine.MergeJson3Proofs Engine.Update2Proofs Engine.Update2Spec Engine.MergeExamples.
 From Helm Require Import Gen.C02Patch Engine.PatchTable.
 Import ListNotations.
 
@@ -482,6 +482,18 @@ Theorem C02_obj_json2_unchanged_drift_refuted :
 Proof. exact j2_unchanged_drift_refuted. Qed.
 Print Assumptions C02_obj_json2_unchanged_drift_refuted.
 
+(* Custom kinds through Client.UpdateThreeWayMerge (install --take-ownership): the THREE-way JSON merge patch
+   MergePatch(keepNulls(diff(old, new)), dropNulls(diff(live, new))) applied to the live object.  No proviso:
+   every member path of the target whose value is not a map holds the target's value in the result, or a value
+   DeepEqual to it that the live object already held — whatever the live object and the original say. *)
+Theorem C02_obj_json3_specified :
+  forall (p : list string) (om tm lm : list (string * tree)) (v : tree),
+    wf_tree (TM om) = true -> wf_tree (TM tm) = true -> wf_tree (TM lm) = true ->
+    mget p (TM tm) = Some v -> nonmap v = true ->
+    exists v', mget p (j3 (TM om) (TM tm) (TM lm)) = Some v' /\ (v' = v \/ teqv v' v = true).
+Proof. exact j3_specified. Qed.
+Print Assumptions C02_obj_json3_specified.
+
 (* one level of the result of the two-way patch, member by member ([entry]: what the patch says about a
    member of the target: nothing when both manifests agree) *)
 Theorem C02_obj_json2_level :
@@ -577,6 +589,19 @@ Theorem C02_obj_update_specified_json2 :
 Proof. exact update2_specified_json2. Qed.
 Print Assumptions C02_obj_update_specified_json2.
 
+(* ... and for custom kinds through Client.UpdateThreeWayMerge, without proviso *)
+Theorem C02_obj_update_specified_json3 :
+  forall (o : store2) (cur tgt : list res2) (o' : store2) (created : list string) (muts : list (verb * string)),
+    NoDup (map r2_key tgt) ->
+    k2_update false true o cur tgt = (o', (true, created), muts) ->
+    forall t tm, In t tgt -> r2_unstr t = true -> r2_obj t = TM tm -> wf_tree (TM tm) = true ->
+    forall p v, mget p (TM tm) = Some v -> nonmap v = true ->
+    (forall live old, aget (r2_key t) o = Some live -> find_res2 (r2_key t) cur = Some old ->
+       exists lm om, live = TM lm /\ r2_obj old = TM om /\ wf_tree (TM om) = true /\ wf_tree (TM lm) = true) ->
+    exists live' v', aget (r2_key t) o' = Some live' /\ mget p live' = Some v' /\ (v' = v \/ teqv v' v = true).
+Proof. exact update2_specified_json3. Qed.
+Print Assumptions C02_obj_update_specified_json3.
+
 Theorem C02_obj_update_fails_iff_unknown_live_target :
   forall (force tw : bool) (o : store2) (cur tgt : list res2),
     NoDup (map r2_key tgt) ->
@@ -646,6 +671,14 @@ Example C02_obj_json3_result :
   teqv (j3 w_o w_t w_l) (wid "2" "web" [("cpu", js "v1"); ("foreign", js "f"); ("memory", js "v1")]%string [js "web"]) = true.
 Proof. exact json3_result. Qed.
 Print Assumptions C02_obj_json3_result.
+
+Example C02_obj_json3_hypotheses_met :
+  wf_tree w_o = true /\ wf_tree w_t = true /\ wf_tree w_l = true /\
+  mget ["spec"; "color"]%string w_t = Some (js "web") /\ nonmap (js "web") = true /\
+  mget ["spec"; "color"]%string w_l = Some (js "DRIFT") /\
+  mget ["spec"; "color"]%string (j3 w_o w_t w_l) = Some (js "web").
+Proof. exact json3_hypotheses_met. Qed.
+Print Assumptions C02_obj_json3_hypotheses_met.
 
 Example C02_obj_json2_hypotheses_met :
   wf_tree w_o = true /\ wf_tree w_t = true /\
